@@ -9,12 +9,26 @@ COMMON_TB = [
 ]
 
 
-def repo_runs(sizes, extra=()):
+PURE_N = {"quick": "300", "thorough": "20000", "widen": "3000"}
+PURE_RULE = ("; `gkh pure` calls the side-effect-free functions of package def (NormalizeTime, Task.NormalizeTime, "
+             "Task.Update, ToTask, TaskUpdateParam.Normalize / Update, IsValid / ReportInvalidity, Task.Less, "
+             "TaskQueryParam.Match raw and normalised, ErrKindUpdate / Cancel / MarkAsDispatch / MarkAsDone) directly on "
+             "fuzzed values (ill-formed tasks, zero / sub-millisecond / pre-epoch times, zones, nil maps) and compares each "
+             "call with its transcription in Gk/Basic.lean and Gk/Query.lean (DIFF tag pure)")
+
+
+def pure_run(tier):
+    return {"args": ["pure", "-n", PURE_N[tier], "-len", "60"], "seed_off": 7}
+
+
+def repo_runs(sizes, extra=(), pure=False):
     def f(tier):
         n, ln, nw = sizes[tier]
         runs = []
         for impl, prof in (("mem", "lifecycle"), ("ent", "lifecycle")) + tuple(extra):
             runs.append({"args": ["repo", "-impl", impl, "-profile", prof, "-n", str(n), "-len", str(ln)]})
+        if pure:
+            runs.append(pure_run(tier))
         return runs
     return f
 
@@ -37,23 +51,23 @@ HOOK_ASSUME = [
 CHECKS = {
     "C01": {
         "family": "repo", "level": "proof", "modules": ["Gk.Props.C01"],
-        "components": ["repo", "memspec", "recover"],
-        "runs": repo_runs(REPO_SIZES, extra=(("ent", "recover"),)),
+        "components": ["repo", "memspec", "recover", "pure"],
+        "runs": repo_runs(REPO_SIZES, extra=(("ent", "recover"),), pure=True),
         "rule": "random lifecycle histories (<=4 live tasks + unknown ids, every Some/None mask, invalid shapes, equal "
                 "clock readings, 5% cancelled contexts) on the in-memory and the ent/SQLite repository; after every "
                 "operation the result kind and the full dump are compared with Spec.Repo and Mon.c01 is evaluated on "
                 "the implementation's own dumps; distinct_nontrivial = distinct op sequences (all reach an error "
-                "or a non-scheduled state, counted by the driver as nontrivial)",
+                "or a non-scheduled state, counted by the driver as nontrivial)" + PURE_RULE,
         "trusted_base": COMMON_TB + ["entgo + SQLite behave per statement as observed (not modelled)"],
         "assumptions": REPO_ASSUME,
     },
     "C12": {
         "family": "repo", "level": "proof", "modules": ["Gk.Props.C12"],
-        "components": ["repo", "memspec", "recover"],
-        "runs": repo_runs(REPO_SIZES, extra=(("ent", "recover"),)),
+        "components": ["repo", "memspec", "recover", "pure"],
+        "runs": repo_runs(REPO_SIZES, extra=(("ent", "recover"),), pure=True),
         "rule": "same histories as C01; every task value returned by AddTask/GetById/Find/GetNext and every dump is "
                 "checked by Mon.c12Task / Mon.c12Step (validity, ms-normalisation, UTC, state/timestamp consistency, "
-                "id and created_at immutability, refusal of invalid parameters)",
+                "id and created_at immutability, refusal of invalid parameters)" + PURE_RULE,
         "trusted_base": COMMON_TB,
         "assumptions": REPO_ASSUME,
     },
@@ -69,8 +83,8 @@ CHECKS = {
     },
     "C11": {
         "family": "repo", "level": "proof", "modules": ["Gk.Props.C11"],
-        "components": ["find", "repo"],
-        "runs": lambda tier: (lambda n, ln: [
+        "components": ["find", "repo", "pure"],
+        "runs": lambda tier: [pure_run(tier)] + (lambda n, ln: [
             {"args": ["repo", "-impl", "mem", "-n", str(n), "-len", str(ln)]},
             {"args": ["repo", "-impl", "mem", "-adversarial", "-findheavy", "-n", str(n), "-len", str(ln)]},
             {"args": ["repo", "-impl", "ent", "-avoid", "like-case,json-path-key", "-n", str(n), "-len", str(ln)]},
@@ -86,8 +100,8 @@ CHECKS = {
     },
     "C07": {
         "family": "hook", "level": "proof", "modules": ["Gk.Props.C07"],
-        "components": ["hook"],
-        "runs": lambda tier: {
+        "components": ["hook", "pure"],
+        "runs": lambda tier: [pure_run(tier)] + {
             "quick": [{"args": ["hook", "-n", "40000", "-len", "15"]},
                       {"args": ["hook", "-n", "20000", "-len", "15", "-faults"], "seed_off": 100},
                       {"args": ["hook", "-exhaustive", "4"]}],
@@ -298,3 +312,6 @@ CHECKS = {
         "assumptions": REPO_ASSUME,
     },
 }
+
+for _pid in ("C11", "C07"):
+    CHECKS[_pid]["rule"] += PURE_RULE
